@@ -208,6 +208,9 @@ func genC15(o *Out, rng *rand.Rand, tier string) {
 				in := input4(rng)
 				if combo&1 == 1 {
 					in.GatewayIPAddr = net.IPv4(10, 7, 0, byte(1+rng.Intn(200))).To4()
+					if (mt+combo)%4 == 0 { // a relay address of a special kind is a relay address
+						in.GatewayIPAddr = append(net.IP(nil), specialIPs[rng.Intn(len(specialIPs))]...)
+					}
 				} else {
 					in.GatewayIPAddr = net.IPv4zero.To4()
 				}
